@@ -173,6 +173,28 @@ claims = {
     "C18": ("The real VFS read path under the vfs build tag - CalcRestorePlan, rebuildIndex/buildIndexMap, FetchPageIndex, FetchLTXHeader, FetchPage, ltx.DecodePageIndex/DecodePageData, pollReplicaClient/pollLevel, Lock/Unlock with the pending index, the LRU page cache, ReadAt, FileSize, SetTargetTime/ResetTime - is executed symbolically over replicas produced by the real ltx encoder from generated primary histories (growth, update, partial shrink, VACUUM) and schedules of uploads, level-1 compactions, level-0 retention, reader locks and polls: at open, after every poll (successful or failed) and in a time-travel view, FileSize and every page equal the restore at VFSFile.Pos(), the position never moves backwards, a time-travel view sits at the last transaction before the requested time and is not disturbed by polls. SetTargetTime may land while a poll that finds a new file is in flight (callback inside the listing call).",
             "Two defects found here were repaired (H6 index replaced/untrimmed on shrink, H10 older level-1 file laid over newer level-0 pages). SQLite reading through the VFS, hydration and the write path are outside the claim.", "DESIGN.md 5 (C18), 7 (H6, H10)"),
 }
+# additions of the third session (second and third seeded rounds), appended to the claim texts
+claims_more = {
+    "C01": " VxC14Checkpoint (shared) logs the checkpoint protocol's steps with whether the write lock was held: a PASSIVE checkpoint runs under the lock after a sealing copy, an unsealed one is followed by a boundary snapshot under the lock, and after a blocking checkpoint that ran but whose follow-up failed the next round re-snapshots (H16, found here and repaired). VxC01Ack also runs with the monitor's upload pass holding the replica lock when the acknowledging call arrives.",
+    "C02": " VxC04Fresh (param VS) runs the whole real verifyAndSyncWithExecutor after a restart and judges the published file on content; VxC14Checkpoint (shared) checks the order of the checkpoint protocol's steps.",
+    "C03": " VxC03FileWriteStream feeds the file backend piece by piece while its context ends at any point of the stream: a final name only ever holds the whole stream. VxC05Compact (shared): a compaction whose source breaks mid-stream or whose upload fails leaves nothing partial under a final name.",
+    "C05": " Listings may break off part-way (an error reported only by the iterator's Err/Close): positions and level ends are taken from complete listings only; a compaction over a listing that broke off may cover a prefix of the new sources and the retry continues from wherever the level ended. A snapshot may be ahead of level 0 on the replica.",
+    "C06": " VxC06LevelEnd: the level end the DB caches is taken only from a complete listing. VxC06Backlog: 300 (thorough 600) single-transaction sources drained by successive passes, each written file being the ordered application of exactly the range in its name. VxC06CacheRace: the newest-file cache when a compaction finishes while another monitor's listing is in flight.",
+    "C07": " The level-0 pass also runs over a local directory mirroring the replica's level 0: the newest local file survives, with remote retention enabled or disabled. File ages are counted back from one base instant and may coincide.",
+    "C10": " VxC19Restore (shared, param BRK): a legacy-format restore with any one WAL segment missing or one segment download breaking off mid-stream is an error with no output or reassembles exactly the original bytes. VxC10Hole: a hole in the compacted chain without level-0 files.",
+    "C11": " VxC11FollowFlush runs the real follow loop with the real apply path over every placement of the next N TXIDs at levels 0-2 under a publish guard: the sidecar is only ever published beside a flushed database. VxC19Restore (param DUR): the legacy-format restore renames the database into place only with its content flushed, whether or not SQLite's checkpoint happened to flush it. VxC03FileWriteStream (shared).",
+    "C13": " VxC13Drain runs the real DB.Sync chunk loop draining a backlog of several byte-budget chunks while the application keeps committing (chunk, tail and growth per pass 1-2 frames; synced offset and thresholds symbolic): when it returns the thresholds were evaluated on the size the drain ended at. VxC13Contention: a due PASSIVE checkpoint meeting an application write transaction no longer than BusyTimeout is carried out, with database/sql's connection pool modelled (a connection is configured by the DSN it was opened with, a PRAGMA only configures the connection it ran on). VxC13IdleFile: an idle sync with a stale tail in the WAL file requests nothing.",
+    "C14": " The checkpoint call runs inside a request context that ends afterwards (a transaction begun with that context is rolled back by database/sql: H15, found here and repaired). VxC14ResetLocal: a reset of the local state with the meta path at its default, at the database's own directory or at an ancestor leaves the database, -wal, -shm and neighbouring files alone. VxC14EnsureExists also covers a database the application creates while litestream is still asking an empty replica; VxC14RestoreIfNeeded (cmd group) the -restore-if-db-not-exists step. SQL outside the whitelist counts only if it can change what another connection reads.",
+    "C15": " VxC15Exact: the requested instant may lie a nanosecond or most of a millisecond past a file's time. VxC15Restore: the whole Replica.Restore with a timestamp on a replica whose newest snapshot was uploaded ahead of its level-0 file. VxC15SnapshotStamp: also without a round in between and with the DB's level-0 cache filled from a lagging replica, the snapshot is never stamped earlier than the level-0 file of its newest transaction.",
+    "C16": " VxC16ApplyFar: on a follower database across the 4 GiB offset (sparse file, 512-byte pages) a page on either side lands at (pgno-1)*pageSize and the first pages keep their bytes. VxC16Follow: the follower may be behind a newer snapshot at restart while every incremental file it needs is still there.",
+    "C17": " VxC17SyncAcross runs the real DB.sync taking a snapshot of a database that grows across the lock page within this one sync (the file ends before the lock page, the pages beyond are in the WAL; 65536-byte pages, staging file replaced by a page-number sink through the openLTXFile hook). VxC17PageMap: WAL frames for the pages next to the lock page reach the page map.",
+    "C19": " VxC19Restore compares each reassembled WAL byte for byte with its segments and may start with a leftover <output>.tmp-wal of an earlier failed attempt.",
+    "C20": " Another instance's lease may run far longer than this client's TTL; the store may answer a DeleteObject carrying If-Match with 501 NotImplemented (whatever the client makes of it, the witness's lease and the conditional-write discipline hold).",
+}
+for _k, _v in claims_more.items():
+    _c = claims[_k]
+    claims[_k] = (_c[0] + _v, _c[1], _c[2])
+
 na_reasons = {
     "C12": "quantifies over goroutine interleavings and the Go memory model; a sequential SSA symbolic interpreter cannot soundly decide races or deadlocks and no concurrency-aware engine for Go exists in this image (DESIGN.md 6)",
 }
@@ -271,7 +293,7 @@ props["C17"] = {
         "codec model as in C06; the encoder's own validation (lock page refused, snapshot pages sequential with the lock page skipped, non-snapshot pages ascending) is the real code",
     ],
     "stubs": ["file-system model with sparse files", "page sink recording the encoder's page headers", "log/slog no-op"],
-    "outside": ["snapshot loop for page sizes 512-2048 (2M-524k iterations each; same code, only longer)", "compaction and restore of such databases (ltx.Compactor / DecodeDatabaseTo skip the lock page by the same comparison)", "VFS reads across the lock page"],
+    "outside": ["snapshot loop for page sizes 512-2048 (2M-524k iterations each; same code, only longer)", "compaction and restore of such databases (ltx.Compactor / DecodeDatabaseTo skip the lock page by the same comparison): a restore writes 1 GiB of page data through the decoder and the file-system model, beyond what the engine can hold - two seeded changes in Replica.Restore (seeded/C17-D, C17-F) are therefore not detected", "VFS reads across the lock page"],
 }
 
 props["C10"] = {
@@ -314,8 +336,8 @@ props["C13"] = {
         "configuration ranges: all 8 page sizes, MinCheckpointPageN 1..131071, TruncatePageN 0..131071 (0 = default 121359), CheckpointInterval in {0, 1, 2 min}, WAL sizes 0..262143 frames, database mtime 0..200 s old",
         "A-CFG: when the emergency threshold is the lower one the code evaluates it on the size before the round; the request then arrives in the next round (VxC13Lag), which is reported as an observation, not a violation",
     ],
-    "stubs": ["checkpointWithExecutor replaced by E-CKPT / busy / not-restarted outcomes (source rewrite, same stand-in natively)", "file-system model (database mtime)", "clock model", "prometheus / slog no-op"],
-    "outside": ["that SQLite honours E-CKPT", "the real checkpointWithExecutor (covered by C14 and C01's checkpoint step)", "the Sync chunk loop beyond what VxC01Ack covers"],
+    "stubs": ["checkpointWithExecutor replaced by E-CKPT / busy / not-restarted outcomes (source rewrite, same stand-in natively)", "file-system model (database mtime)", "clock model", "prometheus / slog no-op", "database/sql over symsql with the connection pool modelled (LIFO free list, a transaction pins its connection, a new connection is configured by the DSN only); the harness's SQL environment keeps a busy timeout per connection", "WAL copy scripted round by round (vxGhostScript) in VxC13Drain/VxC13Rounds"],
+    "outside": ["that SQLite honours E-CKPT", "the real checkpointWithExecutor (covered by C14 and C01's checkpoint step)", "VxC13Drain: chunk, tail and growth per pass are 1-2 frames, three budget-cut passes then one that reaches the end", "how long SQLite actually waits on a lock (busy handler semantics are the contract: a statement waits up to its connection's timeout)"],
 }
 
 props["C14"] = {
